@@ -28,3 +28,18 @@ Theorem C04_every_node : forall t, check_tree t = 0 ->
   Forall_tree (fun P Cs => check_node P Cs = 0) t.
 Proof. exact check_tree_all_nodes. Qed.
 Print Assumptions C04_every_node.
+
+(* the flags of every inner node of an accepted tree are consistent with the flags of its children: a positive flag
+   of a series-parallel, pivot, 1-sum or 2-sum node (regularity also for Delta-, Y- and 3-sum nodes) is never
+   accompanied by a negative flag of a child, a negative one never by positive flags of all children *)
+Theorem C04_flags_consistent_with_children : forall rec cfg bot m n M tr rest,
+  tree_input rec = Some ((cfg, bot, (m, n, M), 0, Some tr), rest) ->
+  judge_tree rec = 0 ->
+  Forall_tree (fun P Cs => check_prop P Cs = 0) tr.
+Proof. exact judge_tree_flags_consistent. Qed.
+Print Assumptions C04_flags_consistent_with_children.
+
+Theorem C04_flag_rule : forall p cs, sum_flag_ok p cs = true ->
+  (0 < p -> Forall (fun c => 0 <= c) cs) /\ (p < 0 -> ~ Forall (fun c => 0 < c) cs).
+Proof. exact sum_flag_ok_spec. Qed.
+Print Assumptions C04_flag_rule.
